@@ -14,8 +14,8 @@ RULE = ("random histories of insert/remove/find/clear (+ allocation scripts in ~
 ASSUMPTIONS = [
     "comparator = total preorder induced by an integer rank (the driver compares int keys); elements with equal "
     "rank and different identity are exercised (EXISTS keeps the stored pointer)",
-    "64-bit pointers/size_t (static assert in the driver); iterator indexes are uint16_t: configurations with "
-    "LEAF_VALS >= 65536 (page >= 512 KiB) are outside the model",
+    "64-bit pointers/size_t (static assert in the driver); iterator indexes are uint16_t and the sources statically reject "
+    "LEAF_VALS > 65535 (fix 627c158, checked by C02), so the model's untruncated indexes are exact",
     "comparator logs are compared on NDEBUG builds (asserts call the comparator); assert-enabled builds of page "
     "sizes 64 and 128 run the same cases and must agree on everything but comparator counts",
     "histories with allocation failure scripts are checked against the model only (L2); their spec line is '*' "
